@@ -65,6 +65,7 @@ ASSUMPTIONS = [
     "b=(1,1)) no finiteness or flag claim is made for the later updates of that case - the solver's guard is the exact test "
     "pAp <= 0 and the property only speaks about non-positive curvature; iter <= max_iter and termination are still claimed",
     "alg.p is read (never written) before each update to evaluate the curvature the solver is about to see",
+    "part 'termination' (n in 11..16, kappa <= 10): 'reached within n updates' is asserted as ||e_n||_A <= 1e-6 ||e_0||_A, a CALIBRATED constant (pinned tree and textbook float64 CG: <= 4e-12 on 3000 systems)",
 ]
 
 KAPPAS = [1.5, 3.0, 10.0, 30.0, 100.0, 300.0, 1000.0]
@@ -822,8 +823,76 @@ def check_narrow(case):
     return r
 
 
+# ------------------------------------------------------------------ part 4: finite termination beyond ten updates
+
+
+@st.composite
+def st_termination(draw):
+    return {"n": draw(st.integers(11, 16)), "cplx": draw(st.booleans()), "kappa": draw(st.sampled_from([2.0, 5.0, 10.0])),
+            "kind": draw(st.sampled_from(["even", "log", "rand"])), "scale": draw(st.sampled_from([1.0, 1e-3, 1e3])),
+            "seed": draw(A.seeds), "form": draw(st.sampled_from(["linop", "func"])), "extra": draw(st.sampled_from([0, 3])),
+            "jacobi": draw(st.booleans())}
+
+
+def check_termination(case):
+    """n in 11..16 with kappa <= 10: the exact solution is reached within n updates. Tolerance 1e-6 ||e0||_A is CALIBRATED:
+    textbook float64 CG (and the pinned tree) leaves at most 4e-12 on 3000 such systems; a restart or a refreshed
+    residual after the tenth update leaves 1e-2."""
+    import sigpy as sp
+    r = R()
+    n, cplx = case["n"], case["cplx"]
+    rng = np.random.default_rng(case["seed"])
+    kap = case["kappa"]
+    if case["kind"] == "even":
+        ev = np.linspace(1.0, kap, n)
+    elif case["kind"] == "log":
+        ev = np.exp(np.linspace(0.0, math.log(kap), n))
+    else:
+        ev = np.sort(rng.uniform(1.0, kap, n))
+        ev[0], ev[-1] = 1.0, kap
+    ev = ev * case["scale"]
+    q = _haar(rng, n, cplx)
+    Am = _herm((q * ev) @ q.conj().T)
+    if not cplx:
+        Am = np.ascontiguousarray(np.real(Am))
+    dt = np.complex128 if cplx else np.float64
+    b = (rng.standard_normal(n) + (1j * rng.standard_normal(n) if cplx else 0)).astype(dt).reshape(n, 1)
+    x0 = (rng.standard_normal(n) + (1j * rng.standard_normal(n) if cplx else 0)).astype(dt).reshape(n, 1)
+    x = x0.copy()
+    xs = np.linalg.solve(Am, b)
+    Aop = sp.linop.MatMul([n, 1], Am.astype(dt)) if case["form"] == "linop" else (lambda v: Am @ v)
+    Pop = None
+    if case["jacobi"]:
+        d = (1.0 / np.real(np.diag(Am))).reshape(n, 1)
+        Pop = (lambda v: d * v)
+    e0 = _anorm(Am, (x0 - xs).ravel())
+    try:
+        alg = sp.alg.ConjugateGradient(Aop, b, x, P=Pop, max_iter=n + case["extra"], tol=0)
+        prev = e0
+        for k in range(1, n + 1):
+            if alg.done():
+                break
+            alg.update()
+            e = _anorm(Am, (x - xs).ravel())
+            if not e <= prev * (1 + 1e-9) + 1e-13 * e0:
+                r.fail("error:increases", "update %d: ||e_k||_A = %.6e > ||e_{k-1}||_A = %.6e" % (k, e, prev))
+                break
+            prev = e
+    except Exception as e:
+        r.fail("termination:raises", "%s: %s" % (type(e).__name__, e))
+        return r
+    e = _anorm(Am, (x - xs).ravel())
+    r.check(e <= 1e-6 * e0, "termination:not-reached:n>10",
+            "n = %d, kappa = %g (%s spectrum): after n updates ||e||_A / ||e0||_A = %.3e (calibrated bound 1e-6)" % (n, kap, case["kind"], e / max(e0, 1e-300)))
+    r.label("n%d" % n, "kappa%g" % kap, case["kind"], "P" if Pop is not None else "no-P")
+    r.nontrivial = True
+    r.sig = "term|%d|%s|%g|%s|%g|%s|%d|%s" % (n, cplx, kap, case["kind"], case["scale"], case["form"], case["extra"], case["jacobi"])
+    return r
+
+
 PARTS = [
     Part("krylov", check_case, {"quick": 20000, "thorough": 40000}, strategy=st_case),
     Part("breakdown", check_breakdown, {"quick": 4000, "thorough": 6000}, strategy=st_breakdown),
     Part("narrow", check_narrow, {"quick": 3000, "thorough": 20000}, strategy=st_narrow),
+    Part("termination", check_termination, {"quick": 2000, "thorough": 20000}, strategy=st_termination),
 ]
